@@ -189,9 +189,31 @@ def _safe_run(mod, case):
         }
 
 
+_DIRTY_SIZES = tuple(range(1, 40)) + (48, 49, 56, 64, 72, 81, 96, 100, 121, 128)
+
+
+def dirty_heap():
+    """
+    The contents of freshly allocated, uninitialised memory (np.empty) are a source of nondeterminism the harness owns: numpy
+    hands small freed blocks back to the next allocation of the same size, so leave a recognisable non-zero pattern in its free
+    lists before every case. Library results that are fully written are unaffected; a result that exposes unwritten memory then
+    shows 7.25 / True instead of whatever the process happened to hold (usually zeros in a fresh child).
+    """
+    import numpy as np
+
+    for n in _DIRTY_SIZES:
+        a = np.full(n, 7.25)
+        b = np.full(n, 7.25)
+        c = np.ones(n * 8, dtype=bool)
+        del a, b, c
+
+
 def _run_chunk(chunk):
     out = []
+    dirty = os.environ.get("VERIF_DIRTY_HEAP", "1") != "0"
     for case in chunk:
+        if dirty:
+            dirty_heap()
         r = _safe_run(_MOD, case)
         out.append(r)
     # compress: only keep per-case detail where needed
